@@ -12,7 +12,7 @@ import progs
 import runner
 
 
-def crash_programs(rng, n, thorough, kind):
+def crash_programs(rng, n, thorough, kind, ck=None):
     P = []
     for i in range(n):
         small = [t for t in progs.ALL_TYPES]
@@ -21,13 +21,41 @@ def crash_programs(rng, n, thorough, kind):
                                             omit_p=0.15 if i % 4 == 1 else 0, twr=False)
         p["crash"] = {"bytes": "all" if (thorough and i % 4 == 0) else "some", "stride": 1 if thorough else (1 if i % 3 == 0 else 3), "all_max": 40,
                       "budget": 4000 if thorough else 500}
+        # the closed file cut at chunk boundaries and around them (a truncated file: every link is final)
+        p["ops"].append({"op": "truncscan", "file": "a", "count": 60 if thorough else 24, "seed": i + 1})
         # after a proper close: reading leaves every byte unchanged (C19, first clause)
         rd = progs.reader_ops(rng, model, nreads=6, with_defs=True)
         rd.insert(-1, {"op": "unchanged"})
         p["ops"] += rd
         p["model"] = progs.model_json(model)
         P.append(p)
+    for nanno in [0, 3, 11, 40, 230] + ([rng.randint(1, 300) for _ in range(40)] if thorough else []):
+        P.append(nofsr_program(rng, len(P) + 1, kind, thorough, nanno))
+    if ck is not None:
+        # histories from the shape graph (spec/JlsShapes.tla): every combination of present / absent tracks
+        import shapes
+        for p, model in shapes.programs(ck, rng, kind + "-shape", thorough, 1500 if thorough else 70, x0=len(P)):
+            p["crash"] = {"bytes": "some", "stride": 1, "all_max": 40, "budget": 1500 if thorough else 300}
+            p["ops"].append({"op": "truncscan", "file": "a", "count": 24, "seed": p["x"]})
+            rd = shapes.reader_ops(rng, model, nreads=4)
+            rd.insert(-1, {"op": "unchanged"})
+            p["ops"] += rd
+            p["model"] = progs.model_json(model)
+            P.append(p)
     return P
+
+
+def nofsr_program(rng, x, kind, thorough, nanno):
+    """A file without any FSR signal (progs.nofsr_writer_program).  The repairing open then has no FSR track to
+    rebuild, and what it appends (END) must still land behind the last complete chunk."""
+    p, model = progs.nofsr_writer_program(rng, x, kind, nanno)
+    ts = model["anno_ts"]
+    p["ops"].append({"op": "truncscan", "file": "a", "count": 60 if thorough else 24, "seed": x})
+    p["ops"] += [{"op": "ropen"}, {"op": "sources"}, {"op": "signals"}, {"op": "annos", "sig": 0, "t": 0}, {"op": "annos", "sig": 0, "t": ts // 2},
+                 {"op": "userdatas"}, {"op": "unchanged"}, {"op": "rclose"}]
+    p["model"] = {"sigs": {}}
+    p["crash"] = {"bytes": "some", "stride": 1 if nanno <= 40 else 7, "all_max": 40, "budget": 4000 if thorough else 300}
+    return p
 
 
 def classify(prog, ev):
